@@ -147,14 +147,13 @@ def r2(rr, repo):
             continue
         if to:
             continue
-        if bal is False:
-            if req is False and eph is False:
+        if bal is not True:
+            # a path that never asks whether the client requested / is ephemeral (or whether the sender balances) covers the live, synchronized, unrequested client too
+            if req is not True and eph is not True:
                 n += 1
                 rr.ob('unbalanced: a live synchronized client that has not asked again forces do_send = False', bool(blocks), za.mod, loop, witness=p.pc_text(), key='block-unrequested')
             elif blocks:
                 rr.ob('unbalanced: only an unrequested non-ephemeral client may block', False, za.mod, blocks[0].node, witness=p.pc_text(), key=f'block-spurious|req={req}|eph={eph}')
-            elif req is None and eph is None:
-                rr.violated('unbalanced: the client loop does not look at requested/ephemeral', za.mod, loop, witness=p.pc_text(), key='block-untested')
         elif bal is True:
             st = [e for e in p.events if e.kind == 'store' and re.match(r'^\{\}\[|^outputs\[', e.term)]
             if not st:
